@@ -1339,12 +1339,11 @@ class Session:
                 ediv=self.peer_ediv,
                 rand=self.peer_rand,
             )
-            if self.is_initiator:
-                keys.ltk_central = peer_ltk_key
-                keys.ltk_peripheral = our_ltk_key
-            else:
-                keys.ltk_central = our_ltk_key
-                keys.ltk_peripheral = peer_ltk_key
+            # Each device keeps the key distributed by the peer for the connections
+            # where it is the Central, and the key it distributed itself for the
+            # connections where it is the Peripheral (the key the Central asks for).
+            keys.ltk_central = peer_ltk_key
+            keys.ltk_peripheral = our_ltk_key
         if self.peer_identity_resolving_key is not None:
             keys.irk = PairingKeys.Key(
                 value=self.peer_identity_resolving_key, authenticated=authenticated
